@@ -8,8 +8,63 @@
 #include "/repo/tests/test_bgpsec.c"
 #undef main
 
-int main(void)
+static long n_alloc, fail_at = -1;
+
+static void *m(size_t sz)
 {
+	if (++n_alloc == fail_at)
+		return NULL;
+	return malloc(sz);
+}
+
+static void *r(void *p, size_t sz)
+{
+	if (++n_alloc == fail_at)
+		return NULL;
+	return realloc(p, sz);
+}
+
+static void f(void *p)
+{
+	free(p);
+}
+
+/* F19: two keys share a SKI; the second realloc inside
+ * spki_table_search_by_ski fails (argument "f19" = allocation #9 counted
+ * from the start of validation): the lookup frees its result array but
+ * leaves *result pointing at it, and the caller frees it again.
+ */
+static int f19(void)
+{
+	struct rtr_bgpsec_nlri *pfx = rtr_mgr_bgpsec_nlri_new(3);
+	int pfx_int = htonl(3221225984);
+	struct rtr_bgpsec *bgpsec;
+	struct spki_table table;
+
+	pfx->nlri_len = 24;
+	pfx->afi = 1;
+	memcpy(pfx->nlri, &pfx_int, 3);
+	bgpsec = rtr_mgr_bgpsec_new(1, 1, 1, 65537, 65537, pfx);
+	rtr_mgr_bgpsec_prepend_sec_path_seg(bgpsec, rtr_mgr_bgpsec_new_secure_path_seg(1, 0, 64496));
+	rtr_mgr_bgpsec_prepend_sec_path_seg(bgpsec, rtr_mgr_bgpsec_new_secure_path_seg(1, 0, 65536));
+	rtr_mgr_bgpsec_prepend_sig_seg(bgpsec, rtr_mgr_bgpsec_new_signature_seg(ski2, 72, sig2));
+	rtr_mgr_bgpsec_prepend_sig_seg(bgpsec, rtr_mgr_bgpsec_new_signature_seg(ski1, 72, sig1));
+	spki_table_init(&table, NULL);
+	spki_table_add_entry(&table, create_record(65536, ski1, spki2));
+	spki_table_add_entry(&table, create_record(65536, ski1, spki1));
+	spki_table_add_entry(&table, create_record(64496, ski2, spki2));
+	fail_at = 9;
+	n_alloc = 0;
+	lrtr_set_alloc_functions(m, r, f);
+	printf("F19: result %d\n", rtr_bgpsec_validate_as_path(bgpsec, &table));
+	return 0;
+}
+
+int main(int argc, char **argv)
+{
+	if (argc > 1 && !strcmp(argv[1], "f19"))
+		return f19();
+
 	struct rtr_bgpsec_nlri *pfx = rtr_mgr_bgpsec_nlri_new(3);
 	int pfx_int = htonl(3221225984); /* 192.0.2.0 */
 	struct rtr_bgpsec *bgpsec;
